@@ -206,6 +206,50 @@ pub fn run(ctx: &Ctx) -> Rep {
         }
         rep.add("hands_of_marked_and_unmarked_same_rank_cards_sorted", sorted_hands);
     }
+    // rank and suit read the same through the two readers of the two-card hand that look at nothing else: every
+    // ordered pair of distinct cards with every combination of marks on either card is a pocket pair / suited
+    // exactly when the unmarked hand is. (The score, gap, connector and high-card readers go through the hand's
+    // sort, where marks take priority by design - the last clause of this property - so they are not compared.)
+    {
+        use ckc_rs::cards::two::Two;
+        let step = if ctx.smoke() { 11 } else { 1 };
+        let mut marked_hands = 0u64;
+        let r = drive::guard(|| {
+            for a in (0..52u8).step_by(step) {
+                for b in 0..52u8 {
+                    if a == b {
+                        continue;
+                    }
+                    let plain = Two::new(model::word(a), model::word(b));
+                    let want = (plain.is_pocket_pair(), plain.is_suited());
+                    for ma in 0..8u32 {
+                        for mb in 0..8u32 {
+                            if ma == 0 && mb == 0 {
+                                continue;
+                            }
+                            let h = Two::new(model::word(a) | (ma << 29), model::word(b) | (mb << 29));
+                            let got = (h.is_pocket_pair(), h.is_suited());
+                            marked_hands += 1;
+                            if got != want {
+                                rep.violation(
+                                    "a marked card's rank and suit read the same (through the two-card hand's readers)",
+                                    "Two::is_pocket_pair / is_suited",
+                                    Input::Words(h.to_arr().to_vec()),
+                                    format!("{:?} as for the unmarked hand", want),
+                                    format!("{:?}", got),
+                                );
+                            }
+                        }
+                    }
+                }
+            }
+        });
+        if let Err(msg) = r {
+            rep.violation("panic", "Two readers on marked cards", Input::None, "normal return".into(), msg);
+        }
+        rep.evaluations += marked_hands * 2;
+        rep.add("two_card_hands_with_marks_read_like_the_unmarked_hand", marked_hands);
+    }
     rep.add("mark_sequences_per_card(length 0..=4 over pair/trips/quads, every order)", seqs.len() as u64);
     rep.add("distinct_marked_words_produced", words.len() as u64);
     let c = model::word(0);
